@@ -7,6 +7,7 @@
   The statements hold for both variants of the code (`Variant.current`, `Variant.fixed`).
 -/
 import YaraModel.Lemmas.ScannerResume
+import YaraModel.Lemmas.ScannerPlace
 namespace YaraModel.Scan
 
 /-- **Resume equivalence.** For every block partition and every schedule in which "not ready" is
@@ -61,20 +62,109 @@ theorem wrappers_funnel (P : Params) (v : Variant) (cb : Nat → CbRet) (stack :
 /-- **Entry points agree** (code with the C10 fixes): the scanner-level entry points used on a scanner
     with ANY history give the callbacks and result of the rules-level entry points (which scan on a new
     scanner), for memory, mapped files and descriptors alike. -/
-theorem entry_points_agree (P : Params) (set : Settings) (hcb : set.hasCallback = true) (w0 : World) (h : List HOp)
-    (cb : Nat → CbRet) (stack : Nat) (data : Option Nat) (size : Nat) :
-    let st := runH P .fixed (HSt.init set w0) h
+theorem entry_points_agree (P : Params) (set0 : Settings) (w0 : World) (h : List HOp)
+    (cb : Nat → CbRet) (stack : Nat) (data : Option Nat) (size : Nat) (hcb : (settingsAfter set0 h).hasCallback = true) :
+    let st := runH P .fixed (HSt.init set0 w0) h
     let a := scannerScanMapped P .fixed cb stack st.sc (.ok (data, size)) { st.w with nmsg := 0 }
-    let b := rulesScanMem P .fixed cb stack set data size { st.w with nmsg := 0 }
+    let b := rulesScanMem P .fixed cb stack (settingsAfter set0 h) data size { st.w with nmsg := 0 }
     a.msgs = b.msgs ∧ a.rc = b.rc := by
   intro st a b
-  have hinv : HInv st := runH_inv P .fixed _ h (HInv.init set w0)
-  have hset : st.sc.set = set := runH_set P .fixed _ h
+  have hinv : HInv st := runH_inv P .fixed _ h (HInv.init set0 w0)
+  have hset : st.sc.set = settingsAfter set0 h := runH_set P .fixed _ h
   have := scanCall_fresh_eq P cb stack st.sc (memIt data size) { st.w with nmsg := 0 }
     (by rw [hset]; exact hcb) hinv.inv (by simp [memIt])
   rw [hset] at this
   simp only [CallOut.obs, Prod.mk.injEq] at this
   exact ⟨this.2.2.2.2.1, this.2.2.2.2.2⟩
+
+/-! ### Place-dependent operators: absolute offset = block base + offset in the block -/
+
+/-- **Every place-dependent string operator is a function of the ABSOLUTE occurrences** (`absT`: position =
+    `match->base + match->offset`): `$s`, `#s`, `$s at x`, `$s in (lo..hi)`, `#s in (lo..hi)`, `@s[i]`, `!s[i]`,
+    `N of (...) at x`, `N of (...) in (lo..hi)` as the evaluator computes them from the scanner's match lists
+    (`PlaceOps`) equal their specification over absolute occurrences (`PlaceSpec`). -/
+theorem place_operators_use_absolute_offsets (t : MatchTable) (s i off lo hi : Nat) (ss : List Nat) :
+    PlaceOps.found t s = PlaceSpec.found (absT t) s ∧
+    PlaceOps.count t s = PlaceSpec.count (absT t) s ∧
+    PlaceOps.foundAt t s off = PlaceSpec.foundAt (absT t) s off ∧
+    PlaceOps.foundIn t s lo hi = PlaceSpec.foundIn (absT t) s lo hi ∧
+    PlaceOps.countIn t s lo hi = PlaceSpec.countIn (absT t) s lo hi ∧
+    PlaceOps.offset t s i = PlaceSpec.offset (absT t) s i ∧
+    PlaceOps.length t s i = PlaceSpec.length (absT t) s i ∧
+    PlaceOps.ofAt t ss off = PlaceSpec.ofAt (absT t) ss off ∧
+    PlaceOps.ofIn t ss lo hi = PlaceSpec.ofIn (absT t) ss lo hi :=
+  ⟨found_spec t s, count_spec t s, foundAt_spec t s off, foundIn_spec t s lo hi, countIn_spec t s lo hi,
+   offset_spec t s i, length_spec t s i, ofAt_spec t ss off, ofIn_spec t ss lo hi⟩
+
+/-- **Partition invariance** (any partition that does not cut an occurrence: the blocks' candidates, put at their
+    absolute offsets `base + off` and concatenated, are the candidates of the whole buffer — also for bases that
+    are not contiguous): collecting the matches block by block gives the same absolute match table, the same
+    too-many-matches dialogue with the callback, the same result code and the same remaining state as collecting
+    them from the single block `whole`. Any limit, any callback script, fast mode or not. -/
+theorem partition_invariant_matches (P : Params) (cb : Nat → CbRet) (fast : Bool) (parts : List (Block × List Cand))
+    (whole : Block) (ksW : List Cand) (c : Core) (w : World)
+    (hk : absCands whole ksW = parts.flatMap fun p => absCands p.1 p.2) :
+    let a := collect P cb fast parts c w
+    let b := addCands P cb fast whole ksW c w
+    absT a.1.found = absT b.1.found ∧ { a.1 with found := [] } = { b.1 with found := [] } ∧ a.2 = b.2 := by
+  have := collect_partition P cb fast parts whole ksW c c w (Core.AbsEq.refl c) hk
+  exact ⟨this.1.found, this.1.rest, this.2⟩
+
+/-- … hence every place operator (and every condition built from them) has the same value after scanning the partition
+    as after scanning the whole buffer in one block (`yr_rules_scan_mem` of the same bytes). -/
+theorem partition_invariant_operators (P : Params) (cb : Nat → CbRet) (fast : Bool) (parts : List (Block × List Cand))
+    (whole : Block) (ksW : List Cand) (c : Core) (w : World)
+    (hk : absCands whole ksW = parts.flatMap fun p => absCands p.1 p.2) (s i off lo hi : Nat) (ss : List Nat) :
+    let ta := (collect P cb fast parts c w).1.found
+    let tb := (addCands P cb fast whole ksW c w).1.found
+    PlaceOps.found ta s = PlaceOps.found tb s ∧ PlaceOps.count ta s = PlaceOps.count tb s ∧
+    PlaceOps.foundAt ta s off = PlaceOps.foundAt tb s off ∧ PlaceOps.foundIn ta s lo hi = PlaceOps.foundIn tb s lo hi ∧
+    PlaceOps.countIn ta s lo hi = PlaceOps.countIn tb s lo hi ∧ PlaceOps.offset ta s i = PlaceOps.offset tb s i ∧
+    PlaceOps.length ta s i = PlaceOps.length tb s i ∧ PlaceOps.ofAt ta ss off = PlaceOps.ofAt tb ss off ∧
+    PlaceOps.ofIn ta ss lo hi = PlaceOps.ofIn tb ss lo hi := by
+  have h := (partition_invariant_matches P cb fast parts whole ksW c w hk).1
+  simp [found_spec, count_spec, foundAt_spec, foundIn_spec, countIn_spec, offset_spec, length_spec, ofAt_spec, ofIn_spec, h]
+
+/-- The same at the level of the block loop of `yr_scanner_scan_mem_blocks`: an iterator that is never late over plain
+    blocks (data available, no executable header, no verifier error), no timeout. The loop over the partition and the
+    loop over the single block `whole` end with the same absolute match table, messages and result code. -/
+theorem block_loop_partition_invariant (P : Params) (cb : Nat → CbRet) (set : Settings) (blocks : List Block) (whole : Block)
+    (c : Core) (w : World) (ht : set.timeout = 0) (hb : ∀ b ∈ blocks, PlainBlock P set b) (hw : PlainBlock P set whole)
+    (hk : absCands whole (blockCands P whole) = blocks.flatMap fun b => absCands b (blockCands P b)) :
+    let a := blockLoop P cb set blocks [] c w
+    let b := blockLoop P cb set [whole] [] c w
+    absT a.core.found = absT b.core.found ∧ a.msgs = b.msgs ∧ a.result = b.result ∧ a.world = b.world := by
+  intro a b
+  have ha := blockLoop_collect P cb set blocks c w ht hb
+  have hb' := blockLoop_collect P cb set [whole] c w ht (by simpa using hw)
+  have hp := collect_partition P cb set.fastMode (blocks.map fun b => (b, blockCands P b)) whole (blockCands P whole) c c w
+    (Core.AbsEq.refl c) (by simpa [List.flatMap_map] using hk)
+  simp only [List.map_cons, List.map_nil, collect] at hb'
+  rcases hW : addCands P cb set.fastMode whole (blockCands P whole) c w with ⟨cW, wW, msW, eW⟩
+  rw [hW] at hp hb'
+  rw [← ha] at hp
+  have hb2 : (b.core, b.world, b.msgs, b.result) = (cW, wW, msW, eW) := by
+    rw [hb']; cases eW <;> simp
+  simp only [Prod.mk.injEq] at hb2 hp
+  obtain ⟨h1, h2, h3, h4⟩ := hb2
+  obtain ⟨hf, hw', hm, he⟩ := hp
+  exact ⟨by rw [h1]; exact hf.found, by rw [h3]; exact hm, by rw [h4]; exact he, by rw [h2]; exact hw'⟩
+
+/-- non-vacuity: "MARKER" at absolute offset 10 of a 16-byte buffer, delivered as blocks [0,4) [4,9) [9,16) (the
+    match is in the third block at in-block offset 1) or as blocks with bases 0, 100, 200 (not contiguous): `in`, `at`,
+    `@`, `#..in` see offset 10 resp. 201; a version that forgot the base would see 1. -/
+example :
+    let P : Params := { rules := [], imports := [], strRule := fun _ => 0, maxMatches := 5, cands := fun _ => [],
+                        ep := fun _ _ _ _ => none, singleMatch := fun _ => false, scanErr := fun _ => none,
+                        cond := fun _ _ => .ret false, modParse := fun _ _ => none }
+    let parts : List (Block × List Cand) := [(⟨0, 4, some 0⟩, []), (⟨4, 5, some 1⟩, []), (⟨9, 7, some 2⟩, [⟨0, 1, 6⟩])]
+    let sparse : List (Block × List Cand) := [(⟨0, 4, some 0⟩, []), (⟨100, 5, some 1⟩, []), (⟨200, 7, some 2⟩, [⟨0, 1, 6⟩])]
+    let t := (collect P (fun _ => .cont) false parts Core.fresh ⟨0, 0⟩).1.found
+    let u := (collect P (fun _ => .cont) false sparse Core.fresh ⟨0, 0⟩).1.found
+    PlaceOps.foundIn t 0 5 12 = true ∧ PlaceOps.foundIn t 0 0 9 = false ∧ PlaceOps.foundAt t 0 10 = true ∧
+    PlaceOps.offset t 0 1 = some 10 ∧ PlaceOps.countIn t 0 10 10 = 1 ∧ PlaceOps.length t 0 1 = some 6 ∧
+    PlaceOps.foundIn u 0 150 250 = true ∧ PlaceOps.offset u 0 1 = some 201 ∧ PlaceOps.foundIn u 0 0 9 = false := by
+  decide
 
 /-! ### Finding F27: a block that is not ready during rule evaluation is taken for the end of the data -/
 
@@ -87,13 +177,14 @@ def P : Params :=
     strRule := fun _ => 0
     maxMatches := 1000
     cands := fun _ => []
-    ep := fun _ _ => none
+    ep := fun _ _ _ _ => none
+    singleMatch := fun _ => false
     scanErr := fun _ => none
     cond := fun _ _ => .walk (fun b => decide (b.base ≤ 5 ∧ 5 < b.base + b.size))
                         (fun seen => .ret (seen.any fun b => decide (b.base ≤ 5 ∧ 5 < b.base + b.size)))
-    modParse := fun _ => none }
+    modParse := fun _ _ => none }
 
-def set : Settings := ⟨true, true, 0, true⟩
+def set : Settings := ⟨true, true, 0, true, false, false⟩
 def blocks : List Block := [⟨0, 4, some 0⟩, ⟨4, 4, some 1⟩]
 /-- calls: first, next, next (end of the block loop), then evaluation: first, next <- not ready -/
 def lateNR : Start := ⟨blocks, [.ok, .ok, .ok, .ok, .notReady], some 8, fun _ => .cont, 16⟩
